@@ -27,7 +27,23 @@
 #define STRN 12
 #endif
 
-#ifndef VERIF_NATIVE
+#if !defined(VERIF_NATIVE) || defined(MODEL_SELFTEST)
+#ifdef MODEL_SELFTEST /* native self-test: the models get private names and are compared with glibc */
+#define snprintf m_snprintf
+#define sprintf m_sprintf
+#define __isoc99_sscanf m_sscanf
+#define strchr m_strchr
+#endif
+/* CBMC keeps variadic arguments in their declared type (no default argument promotion); natively the
+ * promoted type must be used
+ */
+#ifdef VERIF_NATIVE
+#define VA_U8 int
+#define VA_U16 int
+#else
+#define VA_U8 uint8_t
+#define VA_U16 uint16_t
+#endif
 /* ---------------- exact models of the libc calls made by ipv4.c / ipv6.c ---------------- */
 static unsigned int put_dec_u8(char *b, unsigned int pos, size_t size, unsigned int v)
 {
@@ -77,7 +93,7 @@ int snprintf(char *str, size_t size, const char *fmt, ...)
 	va_start(ap, fmt);
 	for (unsigned int i = 0; i < 4; i++) {
 		/* CBMC keeps variadic arguments in their declared type (uint8_t here), no default promotion */
-		unsigned int v = va_arg(ap, uint8_t);
+		unsigned int v = (uint8_t)va_arg(ap, VA_U8);
 
 		pos = put_dec_u8(str, pos, size, v);
 		if (i < 3)
@@ -102,7 +118,7 @@ int sprintf(char *b, const char *fmt, ...)
 
 	va_start(ap, fmt);
 	if (fmt[0] == '%' && fmt[1] == 'x') {
-		unsigned int v = va_arg(ap, uint16_t);
+		unsigned int v = (uint16_t)va_arg(ap, VA_U16);
 
 		VASSERT(v <= 0xffff, "sprintf model: %x of a 16-bit group");
 		if (v >= 0x1000)
@@ -197,6 +213,12 @@ char *strchr(const char *s, int c)
 	}
 	return NULL;
 }
+#ifdef MODEL_SELFTEST
+#undef snprintf
+#undef sprintf
+#undef __isoc99_sscanf
+#undef strchr
+#endif
 #endif /* !VERIF_NATIVE */
 
 /* ---------------- reference parser: RFC 4291 2.2 as accepted by inet_pton(AF_INET6) ---------------- */
@@ -413,6 +435,70 @@ void harness_v6_reference(void)
 				VASSERT(x.addr[i] == (((uint32_t)w[2 * i] << 16) | w[2 * i + 1]), "C19 v6 parse: ... with the same result");
 	}
 	VWITNESS("v6 reference end");
+}
+
+/* every compressed text form "g:g::g:..." in which "::" stands for DC_LEN groups starting at group
+ * DC_POS (DC_LEN = 0: no "::"); the written groups are arbitrary 1..2-digit hex numbers.  The text is
+ * produced by the harness, not by the library's formatter, so forms the formatter never emits (e.g.
+ * "::" for a single group) are covered.
+ */
+#ifndef DC_POS
+#define DC_POS 7
+#endif
+#ifndef DC_LEN
+#define DC_LEN 1
+#endif
+#ifndef DC_DIGITS
+#define DC_DIGITS 1
+#endif
+void harness_v6_compressed(void)
+{
+	char s[48];
+	unsigned int n = 0;
+	uint16_t g[8], w[8];
+	struct lrtr_ipv6_addr x;
+
+	for (unsigned int i = 0; i < 8; i++) {
+		bool zero = DC_LEN > 0 && i >= DC_POS && i < DC_POS + DC_LEN;
+
+		g[i] = 0;
+		if (zero) {
+			if (i == DC_POS) { /* the "::" that stands for groups DC_POS .. DC_POS+DC_LEN-1 */
+				s[n++] = ':';
+				s[n++] = ':';
+			}
+			continue;
+		}
+		/* DC_DIGITS hex digits per written group (concrete count, symbolic digits, symbolic case):
+		 * string positions stay constants for the symbolic execution
+		 */
+		g[i] = ND(uint16_t, "group");
+#if DC_DIGITS < 4
+		VASSUME(g[i] < (1u << (4 * DC_DIGITS)));
+#endif
+		if (n > 0 && s[n - 1] != ':')
+			s[n++] = ':';
+		for (int d = DC_DIGITS - 1; d >= 0; d--) {
+			unsigned int l = (g[i] >> (4 * d)) & 0xf;
+
+			s[n++] = (char)(l < 10 ? '0' + l : (ND_BOOL("upper") ? 'A' : 'a') + l - 10);
+		}
+	}
+	s[n] = 0;
+	for (int i = 0; i < 4; i++)
+		x.addr[i] = ND(uint32_t, "x.init");
+	int ok = ref_pton6(s, w);
+
+	VASSERT(ok == 1, "C19 compressed: the reference inet_pton grammar accepts the constructed text");
+	for (int i = 0; i < 8; i++)
+		VASSERT(!ok || w[i] == g[i], "C19 compressed: the reference yields the constructed groups");
+	int rc = lrtr_ipv6_str_to_addr(s, &x);
+
+	VASSERT(rc == 0, "C19 v6 parse: every compressed form inet_pton accepts is accepted");
+	if (rc == 0)
+		for (int i = 0; i < 4; i++)
+			VASSERT(x.addr[i] == (((uint32_t)g[2 * i] << 16) | g[2 * i + 1]), "C19 v6 parse: ... with the same result");
+	VWITNESS("v6 compressed end");
 }
 
 #ifndef ZMASK
